@@ -11,7 +11,66 @@ fn budget(t: Tier) -> u64 {
     }
 }
 
+/// The whole server (the binary's main(), workers, reporter thread, health listener) under
+/// datagram storms and every kind of failing system call the simulated kernel can inject.
+fn gen_full_system(seed: u64) -> Plan {
+    let mut rng = Rng::derive(seed, "c08-full");
+    let mut plan = Plan::new("C08", "c08.full_system_faults", seed);
+    let mut s = ServerSpec::basic(Mode::F, &random_seed_hex(&mut rng));
+    s.workers = 1 + rng.below(4) as i64;
+    s.batch_size = 1 + rng.below(64) as i64;
+    s.log_level = Some(rng.below(6) as u8);
+    s.fault_pct = *rng.pick(&[0i64, 0, 10, 50]);
+    s.fault_written = s.fault_pct > 0;
+    s.source = if rng.chance(1, 2) { ConfigSource::File } else { ConfigSource::Env };
+    s.health_port = if rng.chance(2, 3) { Some(8000) } else { None };
+    if rng.chance(1, 2) {
+        s.client_stats = Some("on".into());
+        s.persist_dir = Some("/tmp".into());
+        s.status_interval = Some(*rng.pick(&[1i64, 2, 10]));
+        s.stats_limit = Some(*rng.pick(&[2i64, 8, 5_000_000]));
+    }
+    world_knobs(&mut rng, &mut plan, true);
+    {
+        let f = &mut plan.world.faults;
+        f.send_err = *rng.pick(&[0u32, 50, 300]);
+        f.recv_err = *rng.pick(&[0u32, 20, 100]);
+        f.accept_err = *rng.pick(&[0u32, 200, 500]);
+        f.tcp_write_err = *rng.pick(&[0u32, 200, 500]);
+        f.file_create_err = *rng.pick(&[0u32, 300, 1000]);
+        f.file_write_err = *rng.pick(&[0u32, 300]);
+        f.disk_stall = *rng.pick(&[0u32, 300]);
+        f.disk_stall_max_ms = 400;
+    }
+    plan.world.rcv_cap = *rng.pick(&[4usize, 64, 512]);
+    let health = s.health_port.is_some();
+    plan.server = Some(s);
+    let sockets = 1 + rng.below(24) as u32;
+    let n = 30 + rng.below(200) as u32;
+    let end = storm(&mut rng, &mut plan, n, sockets, 30_000);
+    // clock anomalies and health probes during the storm
+    for k in 0..rng.below(4) {
+        plan.step(30_000 + rng.below(end - 29_000), Action::WallStepMs(*rng.pick(&[-86_400_000i64, -2_000, -1, 1, 3_000, 86_400_000])));
+        let _ = k;
+    }
+    if health {
+        for k in 0..(1 + rng.below(6)) {
+            plan.step(30_000 + rng.below(end - 29_000), Action::Health { id: k as u32 });
+        }
+    }
+    // long enough for the reporter (1 s loop) to run into the injected file errors
+    let quiet = end + 1_500_000 + rng.below(1_500_000);
+    plan.world.faults_until_ms = quiet / 1000;
+    sentinels(&mut plan, 8, quiet + 20_000);
+    let last = plan.last_step_us();
+    plan.world.horizon_ms = last / 1000 + 1200;
+    plan
+}
+
 fn gen(seed: u64, idx: u64, _tier: Tier) -> Plan {
+    if idx % 4 == 3 {
+        return gen_full_system(seed);
+    }
     let mut rng = Rng::derive(seed, "c08");
     let faulty = idx % 2 == 1;
     let mut plan = Plan::new("C08", if faulty { "c08.storm_socket_faults" } else { "c08.storm" }, seed);
@@ -74,6 +133,14 @@ fn check(plan: &Plan, out: &RunOut) -> CheckOut {
         }
     }
     let workers_alive = w.procs.iter().filter(|p| p.sut).all(|p| p.exit.is_none());
+    if plan.scenario == "c08.full_system_faults" {
+        for p in w.procs.iter().filter(|p| p.sut) {
+            if let Some(code) = p.exit {
+                co.violate("C08", "server_exited", format!("C08|server_exited_under_faults|code={}", code), format!("the server process ended with status {} ({}) under injected faults", code, p.exit_how));
+            }
+        }
+        co.probe("full_system_run");
+    }
     if !sent_sentinels.is_empty() && view_no_panics(out) {
         if answered_any == 0 {
             co.violate("C08", "wedged_no_sentinel_reply", format!("C08|wedged_no_sentinel_reply|workers_alive={}", workers_alive), format!("none of {} valid sentinel requests sent after the storm was answered", sent_sentinels.len()));
@@ -95,6 +162,11 @@ fn check(plan: &Plan, out: &RunOut) -> CheckOut {
                 "send_err" => "send_failure_path",
                 "recv_err" => "recv_error_path",
                 "rcv_overflow" => "queue_overflow",
+                "accept_err" => "accept_error_path",
+                "tcp_write_err" => "health_write_error_path",
+                "file_create_err" => "stats_file_create_error_path",
+                "file_write_err" => "stats_file_write_error_path",
+                "disk_stall" => "disk_stall_path",
                 _ => "other_fault",
             });
         }
@@ -125,9 +197,9 @@ pub fn property() -> Property {
         gen,
         check,
         finalize: no_finalize,
-        rule: "one evaluation = one simulated execution of 1-4 real Server workers at a seeded log level (Off..Trace), fault_percentage and batch_size, fed a storm of 30-330 datagrams (as C07) with, in the fault profile, send_to/recv_from errors, receive-queue overflow, spurious poll returns, phantom datagrams, postponed tasks; then 8 valid sentinels after faults stop; non-trivial = workers received datagrams; distinct = distinct schedule fingerprints",
+        rule: "three in four evaluations: one simulated execution of 1-4 real Server workers at a seeded log level (Off..Trace), fault_percentage and batch_size, fed a storm of 30-330 datagrams (as C07) with, in the fault profile, send_to/recv_from errors, receive-queue overflow, spurious poll returns, phantom datagrams, postponed tasks; then 8 valid sentinels after faults stop; one in four: the real main() (workers, reporter thread, health listener) under the same storms plus accept / TCP write / statistics-file create and write errors, disk stalls, wall-clock steps and health probes; non-trivial = workers received datagrams; distinct = distinct schedule fingerprints",
         assumptions: &["log verbosity is selected through log::set_max_level as an embedding program would", "bounded liveness: a sentinel is answered within 1 simulated second once faults stop"],
-        real: REAL_W,
+        real: REAL_F,
         stub: STUB,
     }
 }
